@@ -539,10 +539,11 @@ ParamsMatch(st, p, s, f, args) == st.p = p /\ st.s = s /\ st.f = f /\ st.lens = 
 \* update_state_with_service_result
 ApplyServiceResult(ctx, r, out, p, s, f, args) ==
     IF r.rc # 0 THEN
-        RaiseT(Push(ctx, FailedState(FailedValue(r.rc, r.body), p, s, f, args)), Catch(E_LocalService), [p |-> p, s |-> s, f |-> f, lens |-> ""])
+        \* (a failed call leaves its subgraph incomplete, exactly as when the Failed state is met again in the data)
+        RaiseT(Incomplete(Push(ctx, FailedState(FailedValue(r.rc, r.body), p, s, f, args))), Catch(E_LocalService), [p |-> p, s |-> s, f |-> f, lens |-> ""])
     ELSE IF r.v.t = "raw" THEN
         \* try_to_service_result: a body that is not JSON
-        RaiseT(Push(ctx, FailedState(UndecodableValue(r.body), p, s, f, args)), Catch(E_LocalService), [p |-> p, s |-> s, f |-> f, lens |-> ""])
+        RaiseT(Incomplete(Push(ctx, FailedState(UndecodableValue(r.body), p, s, f, args))), Catch(E_LocalService), [p |-> p, s |-> s, f |-> f, lens |-> ""])
     ELSE IF out = "" THEN Push(ctx, UnusedState(r.v))
     ELSE IF Sigil(out) = "$" THEN
         LET c2 == AddStreamValue(ctx, out, ValAt(r.v, [p |-> p, s |-> s, f |-> f, lens |-> ""], Len(ctx.out), "sr"), [k |-> "new", i |-> 0]) IN
